@@ -206,6 +206,8 @@ type result struct {
 	// the plan holds a summarize with >1 keys and an input sort direction
 	multiKeyStreaming bool
 	scanFilter        dag.Expr // the filter pushed into the scan, if any
+	// identities (keys, aggregates, limit) of the summarizes that carry an input sort direction
+	streamSigs map[string]bool
 }
 
 // dropErrorFilters rewrites every filter operator `where F` of an analysed
@@ -296,6 +298,54 @@ func noJoinDirs(seq dag.Seq) {
 	})
 }
 
+// summarizeSig identifies a summarize by its keys, aggregates and limit (a
+// copy lifted into a fork leg as a partial summarize keeps them).
+func summarizeSig(s *dag.Summarize) string {
+	b, _ := json.Marshal(struct {
+		K, A []dag.Assignment
+		L    int
+	}{s.Keys, s.Aggs, s.Limit})
+	return string(b)
+}
+
+// missingKeyAsNull rewrites the FIRST key k (or the first argument of a key
+// function) of the selected summarizes into `missing(k) ? null : k`, so that
+// a missing key falls into the null group.  Selected are the summarizes with
+// an input sort direction (streaming, for an optimized plan) or those whose
+// identity is in sigs (for the plan as analysed).  It reports how many it rewrote.
+func missingKeyAsNull(sigs map[string]bool, streaming bool, n *int) func(dag.Seq) {
+	wrap := func(e dag.Expr) dag.Expr {
+		return &dag.Conditional{Kind: "Conditional",
+			Cond: &dag.Call{Kind: "Call", Name: "missing", Args: []dag.Expr{e}},
+			Then: &dag.Literal{Kind: "Literal", Value: "null"},
+			Else: e}
+	}
+	return func(seq dag.Seq) {
+		walkSeqs(seq, func(seq dag.Seq) {
+			for _, op := range seq {
+				s, ok := op.(*dag.Summarize)
+				if !ok || len(s.Keys) == 0 || !(streaming && s.InputSortDir != 0 || !streaming && sigs[summarizeSig(s)]) {
+					continue
+				}
+				switch rhs := s.Keys[0].RHS.(type) {
+				case *dag.This:
+					if len(rhs.Path) > 0 {
+						s.Keys[0].RHS = wrap(rhs)
+						*n++
+					}
+				case *dag.Call:
+					if len(rhs.Args) > 0 {
+						if this, ok := rhs.Args[0].(*dag.This); ok && len(this.Path) > 0 {
+							rhs.Args[0] = wrap(this)
+							*n++
+						}
+					}
+				}
+			}
+		})
+	}
+}
+
 func hasStreamingSummarizeWithLimit(seq dag.Seq) (found bool) {
 	walkSeqs(seq, func(seq dag.Seq) {
 		for _, op := range seq {
@@ -341,6 +391,14 @@ func runOnePost(seq ast.Seq, src source, optimize bool, prep, post func(dag.Seq)
 		}
 	}
 	res.multiKeyStreaming = hasStreamingMultiKeySummarize(job.Entry())
+	res.streamSigs = map[string]bool{}
+	walkSeqs(job.Entry(), func(seq dag.Seq) {
+		for _, op := range seq {
+			if s, ok := op.(*dag.Summarize); ok && s.InputSortDir != 0 {
+				res.streamSigs[summarizeSig(s)] = true
+			}
+		}
+	})
 	if scan, ok := job.DefaultScan(); ok {
 		res.scanFilter = scan.Filter
 	}
@@ -735,9 +793,17 @@ func runCase(c Case) *vt.Outcome {
 		// optimized plan with the direction taken out again.
 		if r := runOnePost(seq, src, true, nil, noStreamingSummarize); r.stage == "" && compare(plain.vals, r.vals) == "" {
 			known := "C07/sortkey-summarize/streaming-differs"
-			hasNull, hasMissing := keyNullMissing(c)
+			hasNull, _ := keyNullMissing(c)
+			// Root cause "the producers of the order (declared input order, sort,
+			// merge) take a missing key for null, the streaming group-by keeps
+			// error(\"missing\") apart from null and orders it elsewhere": put the
+			// missing keys into the null group in BOTH plans (streaming left on in
+			// the optimized one); if they then agree, that is the cause.
+			var np, no int
+			pm := runOnePost(seq, src, false, missingKeyAsNull(opt.streamSigs, false, &np), nil)
+			om := runOnePost(seq, src, true, nil, missingKeyAsNull(nil, true, &no))
 			switch {
-			case hasNull && hasMissing:
+			case np > 0 && no > 0 && pm.stage == "" && om.stage == "" && compare(pm.vals, om.vals) == "":
 				known = "C07/sortkey-summarize/null-and-missing-keys-interleaved"
 			case hasNull && keyIsFloat(c) && regexp.MustCompile(`"kind":"Summarize","limit":\d+,"keys":\[\{"kind":"Assignment","lhs":\{[^{}]*\},"rhs":\{"kind":"Call","name":"(floor|ceil|round)"`).MatchString(opt.dag):
 				known = "C07/sortkey-summarize/rounding-function-of-null-float-key"
